@@ -31,8 +31,22 @@ func Edit(w *World, t *tape.Tape, prof Profile) string {
 						hosts = append(hosts, h)
 					}
 				}
-				if c := g.genCall(""); c != nil && len(hosts) > 0 && pairable(c) {
-					h := hosts[t.Intn(len(hosts))]
+				var c *Call
+				var h *Call
+				if len(hosts) > 0 {
+					h = hosts[t.Intn(len(hosts))]
+					// preferably a call of the host's own plugin on another type: the two functions are
+					// neighbours in the generated file, so their relative order is observable
+					if t.Bool() {
+						if sc := g.simple(h.Plugin, g.anyTy()); sc != nil && sc.NRes == 1 {
+							c = g.finish(sc, "")
+						}
+					}
+				}
+				if c == nil {
+					c = g.genCall("")
+				}
+				if c != nil && h != nil && pairable(c) {
 					h.Form = 0
 					h.Pair = c
 					return "add-call-same-line " + w.FuncName(c) + " next to " + w.FuncName(h)
